@@ -1,6 +1,11 @@
+mod c40;
+mod c41;
+
 fn main() {
     let ctx = mc_core::Ctx::from_args();
     match ctx.prop.as_str() {
-        p => mc_core::report::machinery_failure(&format!("mc-txbuilder does not serve {p} yet")),
+        "C40" => c40::run(ctx),
+        "C41" => c41::run(ctx),
+        p => mc_core::report::machinery_failure(&format!("mc-txbuilder does not serve {p}")),
     }
 }
